@@ -103,6 +103,7 @@ type FT struct {
 	topCon  *Contract
 	label   string // obligation name prefix when fn is nil (lemmas)
 	inQuant int
+	memSymAlloc map[string]int // allocation counter when a memory symbol was created
 	failSites []string // fail-stop ghost flags (one per call site that can fail)
 	failText  map[string]string
 	seenLens []Term // lengths of slices that exist as data (parameters, slices read from memory)
@@ -143,6 +144,10 @@ func (ft *FT) memSym(gen, ver int, comp, sortS string) Term {
 	}
 	t := ft.c.Fresh(fmt.Sprintf("M%d.%d$%s", gen, ver, comp), sortS)
 	ft.memSyms[k] = t
+	if ft.memSymAlloc == nil {
+		ft.memSymAlloc = map[string]int{}
+	}
+	ft.memSymAlloc[t.T] = ft.nalloc
 	return t
 }
 
@@ -195,6 +200,16 @@ func (ft *FT) load(m *Mem, lv *LV) *Val {
 	for _, l := range leavesOf(lv.T) {
 		name, s := compFor(lv, l)
 		arr := ft.memGet(m, name, s)
+		// facts about values read under a binder cannot be attached to a named ground term: state them once as
+		// quantified axioms over the (unwritten) memory symbol. Only done for symbols actually read under a binder.
+		if ft.inQuant > 0 {
+			if l.Kind == 'r' {
+				ft.refAxiom(arr, len(idxs)+l.Lift)
+			}
+			if gInt && (l.Kind == 'i' || l.Kind == 'u') {
+				ft.intAxiom(arr, len(idxs)+l.Lift, l.W, l.Kind == 'i')
+			}
+		}
 		t := selectNested(mkSelect(arr, lv.Ref), idxs)
 		if l.Lift == 0 && l.Kind == 'r' && ft.inQuant == 0 {
 			// a reference read from memory cannot designate an object that this function allocates later
@@ -227,6 +242,63 @@ func (ft *FT) load(m *Mem, lv *LV) *Val {
 		}
 	}
 	return v
+}
+
+// refAxiom: every reference stored in an (unwritten) memory symbol designates an object that existed when the
+// symbol was created — it cannot equal a later allocation of this function. depth = number of index levels below the reference key.
+func (ft *FT) refAxiom(arr Term, depth int) {
+	d := ft.c.decls[arr.T]
+	if d == nil || d.Def != nil || d.Quant != nil {
+		return
+	}
+	key := "refax|" + arr.T
+	if _, done := ft.memSyms[key]; done {
+		return
+	}
+	ft.memSyms[key] = arr
+	bound := allocBase + int64(ft.memSymAlloc[arr.T])
+	vars := []string{ft.c.BoundVar("r")}
+	sorts := []string{SInt}
+	sel := mkSelect(arr, Term{SInt, vars[0]})
+	for i := 0; i < depth; i++ {
+		v := ft.c.BoundVar("i")
+		vars = append(vars, v)
+		sorts = append(sorts, SIdx)
+		sel = mkSelect(sel, Term{SIdx, v})
+	}
+	if sel.S != SInt {
+		return
+	}
+	ft.c.Assume(arr, ft.c.QuantN(false, vars, sorts, mkAnd(app(SBool, ">=", sel, intConst(0)), app(SBool, "<=", sel, intConst(bound)))))
+}
+
+// intAxiom (int mode): every integer stored in an unwritten memory symbol lies in its type's range.
+func (ft *FT) intAxiom(arr Term, depth int, w int, signed bool) {
+	d := ft.c.decls[arr.T]
+	if d == nil || d.Def != nil || d.Quant != nil {
+		return
+	}
+	key := "intax|" + arr.T
+	if _, done := ft.memSyms[key]; done {
+		return
+	}
+	ft.memSyms[key] = arr
+	vars := []string{ft.c.BoundVar("r")}
+	sorts := []string{SInt}
+	sel := mkSelect(arr, Term{SInt, vars[0]})
+	for i := 0; i < depth; i++ {
+		v := ft.c.BoundVar("i")
+		vars = append(vars, v)
+		sorts = append(sorts, SIdx)
+		if !isArr(sel.S) {
+			return
+		}
+		sel = mkSelect(sel, Term{SIdx, v})
+	}
+	if sel.S != SInt {
+		return
+	}
+	ft.c.Assume(arr, ft.c.QuantN(false, vars, sorts, inTypeRange(sel, w, signed)))
 }
 
 func (ft *FT) noteLen(t Term) {
